@@ -39,7 +39,7 @@ impl ValProp {
                     max_members: 12,
                     max_args: 1,
                     max_depth: 1,
-                    method_names: Some(vec!["m1", "m2", "m3", "m4", "m5", "m6", "get", "set"]),
+                    method_names: Some(vec!["m1", "m2", "m3", "m4", "m5", "m6", "get", "set", "Get", "GET", "M1", "send", "Send"]),
                     ..pc.gen
                 };
                 pc.max_files = 2;
